@@ -6,7 +6,8 @@
 (* four real trackers by `vh replay tracker`.                                  *)
 EXTENDS Tracker, Json, Randomization
 CONSTANTS D,        \* behaviour length
-          Kind,     \* "simple": predict(scene, dets) ; "batch": batch({scene -> dets})
+          Kind,     \* "simple": predict(scene, dets) ; "batch": batch({scene -> dets}) ; "fullbatch": only batches that
+                    \* carry every scene, and wasted() (voting threads of one scene overlap the scans for the next)
           Periods,  \* set_auto_waste arguments
           MaxDets,  \* detections per list: 0..MaxDets (<= 2)
           Sim       \* 0 = enumerate every operation; k > 0 = draw k candidate operations per step
@@ -26,7 +27,9 @@ SceneSeq == AscSeq(Scenes)
 DLne == DL \ {<<>>}
 BatchOps == {[op |-> "batch", b |-> [i \in 1..Len(AscSeq(S)) |-> [scene |-> AscSeq(S)[i], dets |-> f[AscSeq(S)[i]]]]] :
                S \in SUBSET Scenes, f \in [Scenes -> DLne]}
-Ops == (IF Kind = "simple" THEN {[op |-> "predict", scene |-> s, dets |-> d] : s \in Scenes, d \in DL}
+FullBatchOps == {o \in BatchOps : Len(o.b) = Cardinality(Scenes)} \cup {[op |-> "wasted"]}
+Ops == IF Kind = "fullbatch" THEN FullBatchOps ELSE
+       (IF Kind = "simple" THEN {[op |-> "predict", scene |-> s, dets |-> d] : s \in Scenes, d \in DL}
                            ELSE {o \in BatchOps : TRUE})
        \cup {[op |-> "skip", scene |-> s, n |-> n] : s \in Scenes, n \in 1..2}
        \cup {[op |-> "idle", scene |-> s] : s \in Scenes}
